@@ -13,6 +13,7 @@ logging.disable(logging.CRITICAL)
 
 import numpy as np  # noqa: E402
 
+from mc import modstate  # noqa: E402
 from mc import vclock  # noqa: E402
 from mc.vclock import CLOCK, BASE, logical  # noqa: E402
 
@@ -436,7 +437,8 @@ class CellWorld:
     # -- canonical form -----------------------------------------------------------
     def canon(self):
         return (canon_cell(self.cell, lambda n: self.tmpl[n]),
-                tuple(sorted(self.alloc_variant.items())), CLOCK.L)
+                tuple(sorted(self.alloc_variant.items())), CLOCK.L,
+                modstate.digest())
 
 
 def normalise_hidden(cell):
